@@ -45,6 +45,11 @@ ASSUMPTIONS = {
         "R13: `self.buffer[i].borrow_mut()` rewritten to `&mut self.buffer[i]` (blanket identity impl)",
         "assumed contracts u64::rotate_left/rotate_right == shift formulas (assume_specification) - discharged for every value by the Kani harness rotate_spec_all_values",
     ],
+    "C13": KMER_COMMON + [
+        "unverified glue: HashSet::from_iter(weed_ref.kmer_iter()) (hashbrown: the set of the listed k-mers), the zip over (split_kmers, rows, counts) in MergeSkaArray::weed, the three field assignments after its loop, the frame `names unchanged`",
+        "R3 (unit weedfrag): hashbrown::HashSet -> std HashSet; the Array2 under construction -> RowsShim whose push_row is an external stub with the contract `appends the row`; a row view -> &Vec<u8>",
+        "the Kani wrapper harness replaces RefSka::new, MergeSkaArray::weed, ::filter and ::save by recording stubs (their own behaviour is decided elsewhere or not at all): it checks only which of them generic_modes::weed calls, in which order and with which arguments; samples <= 4, every f64 min_freq in [0,1], k in 5..=63",
+    ],
     "C14": [
         "BOUNDED: variant_dist is checked for columns of length 3 only",
         "not decided: MergeSkaArray::distance (rayon, collect_into_vec order), generic_modes::distance's pre-filter bookkeeping (rows removed by --min-freq are added to every pair's match count); of MergeSkaArray::new only the closure deciding which cells count as present is proved (lifted fragment), its hashbrown iteration and ndarray push_row are glue",
